@@ -76,6 +76,7 @@ class C01(Prop):
             counter = 0
             outstanding = {}        # key tuple -> ('one'|'many')
             done = []               # keys already answered (for replays)
+            refused = []            # ids consumed by sends the protocol refused (never sent, so never outstanding)
             first_rx = True
             for _ in range(rng.randrange(4, 60)):
                 r = rng.random()
@@ -85,6 +86,8 @@ class C01(Prop):
                     expects.append(None)
                     if not (pname == 'v1' and isinstance(args, dict)):
                         outstanding[(counter,)] = 'one'
+                    else:
+                        refused.append(counter)
                     counter += 1
                 elif r < 0.36:
                     ops.append(['send_notification', 'n', jv.to_plain([1])])
@@ -98,6 +101,8 @@ class C01(Prop):
                     if pname != 'v1':
                         if ids:
                             outstanding[ids] = 'many'
+                    else:
+                        refused.extend(ids)
                     counter += nreq      # ids are consumed even when the protocol refuses batches
                 elif outstanding or done:
                     # the peer answers something
@@ -167,6 +172,9 @@ class C01(Prop):
                         expects.append(['reject'])
                     else:
                         rid = rng.choice([9999, -1, '0', '1', None, 1.5, 2 ** 70, [1], {'a': 1}, [], [[2]]])
+                        if refused and rng.random() < 0.5:
+                            # the id of a request the protocol refused to encode: it was never sent
+                            rid = rng.choice(refused)
                         payload = response_payload(rng, pname, rid, rng.choice([['res', 1], ['res', 1], ['malformed', rng.randrange(3)]]))
                         ops.append(['receive', list(json.dumps(payload).encode())])
                         expects.append(['reject'])
